@@ -75,6 +75,7 @@ func (sc *SchemaCache) Schema(src protoreflect.MessageDescriptor) (RootSchema, e
 	}
 	if err == nil {
 		placeholder.To = built
+		verifAt("validate", packageName+"."+nameInPackage)
 		for _, ref := range sc.added {
 			if err = validateBuiltRef(ref); err != nil {
 				break
@@ -83,7 +84,9 @@ func (sc *SchemaCache) Schema(src protoreflect.MessageDescriptor) (RootSchema, e
 	}
 	if err != nil {
 		// nothing registered by a failed build may be handed out later
+		verifAt("rollback", packageName+"."+nameInPackage)
 		sc.rollback()
+		verifAt("fail", packageName+"."+nameInPackage)
 		return nil, err
 	}
 	sc.added = sc.added[:0]
